@@ -11,6 +11,7 @@
 package main
 
 import (
+	"runtime"
 	"encoding/hex"
 	"encoding/json"
 	"fmt"
@@ -396,31 +397,66 @@ func newScreen() tcell.Screen {
 	return s
 }
 
+func evStr(ev tcell.Event) string {
+	switch e := ev.(type) {
+	case *tcell.EventKey:
+		return fmt.Sprintf("k:%d:%d:%d", e.Key(), e.Rune(), e.Modifiers())
+	case *tcell.EventMouse:
+		x, y := e.Position()
+		return fmt.Sprintf("m:%d:%d:%d:%d", x, y, e.Buttons(), e.Modifiers())
+	case *tcell.EventPaste:
+		return fmt.Sprintf("p:%d", b01(e.Start()))
+	case *tcell.EventFocus:
+		return fmt.Sprintf("f:%d", b01(e.Focused))
+	case *tcell.EventResize:
+		w, h := e.Size()
+		return fmt.Sprintf("r:%d:%d", w, h)
+	case nil:
+		return "nil"
+	}
+	return fmt.Sprintf("?%T", ev)
+}
+
 func drain(s tcell.Screen) []string {
 	var out []string
 	for s.HasPendingEvent() {
 		ev := s.PollEvent()
-		switch e := ev.(type) {
-		case *tcell.EventKey:
-			out = append(out, fmt.Sprintf("k:%d:%d:%d", e.Key(), e.Rune(), e.Modifiers()))
-		case *tcell.EventMouse:
-			x, y := e.Position()
-			out = append(out, fmt.Sprintf("m:%d:%d:%d:%d", x, y, e.Buttons(), e.Modifiers()))
-		case *tcell.EventPaste:
-			out = append(out, fmt.Sprintf("p:%d", b01(e.Start())))
-		case *tcell.EventFocus:
-			out = append(out, fmt.Sprintf("f:%d", b01(e.Focused)))
-		case *tcell.EventResize:
-			w, h := e.Size()
-			out = append(out, fmt.Sprintf("r:%d:%d", w, h))
-		case nil:
-			out = append(out, "nil")
+		out = append(out, evStr(ev))
+		if ev == nil {
 			return out
-		default:
-			out = append(out, fmt.Sprintf("?%T", ev))
 		}
 	}
 	return out
+}
+
+// burst: n key callbacks fired back to back by the page (one JS task: a paste handler typing the text, key auto-repeat)
+// while the application is away from PollEvent; a polling goroutine picks the events up as the runtime lets it.  Every
+// callback becomes an event: all n come out, in order (C19; more than the event queue holds is the point).
+func burst(s tcell.Screen, n int) []string {
+	resCh := make(chan []string, 1)
+	go func() {
+		var evs []string
+		for {
+			ev := s.PollEvent()
+			if ev == nil {
+				break
+			}
+			if iv, ok := ev.(*tcell.EventInterrupt); ok {
+				if d, ok := iv.Data().(string); ok && d == "burst-end" {
+					break
+				}
+			}
+			evs = append(evs, evStr(ev))
+		}
+		resCh <- evs
+	}()
+	for i := 0; i < n; i++ {
+		fire("onKeyEvent", string(rune('a'+i%26)), false, false, false, false)
+	}
+	for s.PostEvent(tcell.NewEventInterrupt("burst-end")) != nil {
+		runtime.Gosched()
+	}
+	return <-resCh
 }
 
 func b01(b bool) int {
@@ -653,6 +689,21 @@ func runEv(ops []string, r *runner, out *caseOut, tableNames map[string]bool) {
 				r.emit("err")
 			}
 			suspended = false
+		case f[0] == "burst" && len(f) == 2:
+			n := atoi(f[1])
+			evs := burst(s, n)
+			r.emit("[" + strings.Join(evs, ",") + "]")
+			out.nontriv = true
+			out.tags["burst"] = true
+			if !suspended {
+				ok := len(evs) == n
+				for k := 0; ok && k < n; k++ {
+					ok = evs[k] == fmt.Sprintf("k:%d:%d:0", tcell.KeyRune, 'a'+k%26)
+				}
+				if !ok {
+					fail("callback-event-lost", "op %d: %d key callbacks fired back to back (the event queue holds 10) gave %d events %v: every callback becomes an event, in order", i, n, len(evs), evs)
+				}
+			}
 		case f[0] == "key" && len(f) == 6:
 			name := string(unhex(f[1]))
 			sh, al, ct, me := f[2] == "1", f[3] == "1", f[4] == "1", f[5] == "1"
